@@ -68,6 +68,7 @@ var leafTypes = map[string]reflect.Type{
 	"bigfloat": reflect.TypeOf(big.Float{}), "apd": reflect.TypeOf(apd.Decimal{}), "dfloat": reflect.TypeOf(compact_float.DFloat{}),
 	"url": reflect.TypeOf(url.URL{}), "uid": reflect.TypeOf(types.UID{}), "media": reflect.TypeOf(types.Media{}),
 	"iface": reflect.TypeOf((*interface{})(nil)).Elem(),
+	"node":  reflect.TypeOf(types.Node{}), "edge": reflect.TypeOf(types.Edge{}),
 }
 
 func termType(t *typeTerm) reflect.Type {
@@ -210,6 +211,10 @@ func (m *valueMaker) leaf(kind string, vc string) reflect.Value {
 		v.Set(reflect.ValueOf(types.Media{MediaType: "application/x-test", Data: []byte{1, 2, 3, byte(m.next())}}))
 	case "iface":
 		v.Set(reflect.ValueOf([]interface{}{42, -7, 100000}[m.next()%3]))
+	case "node":
+		v.Set(reflect.ValueOf(types.Node{Value: 1 + m.next()%5, Children: []interface{}{-3, "leaf"}}))
+	case "edge":
+		v.Set(reflect.ValueOf(types.Edge{Source: "from", Description: 7 + m.next()%5, Destination: -1}))
 	default:
 		panic("harness: leaf " + kind)
 	}
@@ -337,9 +342,30 @@ func expectTokens(t *typeTerm, v reflect.Value, vc string, out *[]string) {
 			expectTokens(f, fv, vc, out)
 		}
 		*out = append(*out, "end")
+	case "node":
+		n := v.Interface().(types.Node)
+		*out = append(*out, "node", untypedToken(n.Value))
+		for _, ch := range n.Children {
+			*out = append(*out, untypedToken(ch))
+		}
+		*out = append(*out, "end")
+	case "edge":
+		e := v.Interface().(types.Edge)
+		*out = append(*out, "edge", untypedToken(e.Source), untypedToken(e.Description), untypedToken(e.Destination), "end")
 	default:
 		*out = append(*out, leafToken(t.K, v))
 	}
+}
+
+// untypedToken: an int or string held in an interface (components of nodes and edges).
+func untypedToken(x interface{}) string {
+	switch y := x.(type) {
+	case int:
+		return ratToken(new(big.Rat).SetInt64(int64(y)))
+	case string:
+		return fmt.Sprintf("A:string:%d:%s", len(y), hex.EncodeToString([]byte(y)))
+	}
+	panic(fmt.Sprintf("harness: untypedToken %T", x))
 }
 
 func emptyForOmission(v reflect.Value) bool {
@@ -463,6 +489,10 @@ func eventClasses(evs []AEv) []string {
 			out = append(out, "list")
 		case "OnMap":
 			out = append(out, "map")
+		case "OnNode":
+			out = append(out, "node")
+		case "OnEdge":
+			out = append(out, "edge")
 		case "OnEndContainer":
 			out = append(out, "end")
 		case "OnNull":
